@@ -92,6 +92,28 @@ Theorem C15_unknown_word_after_paren a sp w b ts : ref_tokens T0 a = Ok ts -> un
 Proof.
   intros Ha U Fs. apply parse_ref_err; [destruct a; discriminate|]. exact (unknown_word_after_paren T0 HT0 a sp w b ts Ha U Fs).
 Qed.
+(* The converse for missing ids: "LicenseRef-" (or "DocumentRef-") followed by nothing or by a byte that is no id
+   character is reported as `expected id` at exactly the offset where the id should start - first in the text, or after a
+   space, "(" or the ":" of a DocumentRef, provided the text before it tokenises. *)
+Theorem C15_missing_id_first sp b : Forall (fun c => is_space c = true) sp -> no_id_follows b ->
+  parse T0 (sp ++ k_licref ++ b) = Err (EExpectedId (length sp + length k_licref)) /\
+  parse T0 (sp ++ k_docref ++ b) = Err (EExpectedId (length sp + length k_docref)).
+Proof.
+  intros Fs Hb. split; apply parse_ref_err; try (destruct sp; discriminate).
+  - exact (missing_licref_first T0 HT0 sp b Fs Hb).
+  - exact (missing_docref_first T0 HT0 sp b Fs Hb).
+Qed.
+Theorem C15_missing_id_after a c sp b ts : ref_tokens T0 a = Ok ts -> c = " "%char \/ c = "("%char \/ c = ":"%char ->
+  Forall (fun x => is_space x = true) sp -> no_id_follows b ->
+  parse T0 (a ++ c :: sp ++ k_licref ++ b) = Err (EExpectedId (length a + 1 + length sp + length k_licref)).
+Proof.
+  intros Ha Hc Fs Hb. apply parse_ref_err; [destruct a; discriminate|]. exact (missing_licref_after T0 HT0 a c sp b ts Ha Hc Fs Hb).
+Qed.
+Example C15_missing_id_nonvacuous :
+  parse T0 (s2l "DocumentRef-x:LicenseRef-") = Err (EExpectedId 25) /\ ref_tokens T0 (s2l "DocumentRef-x") = Ok [TDoc (s2l "x")]
+  /\ parse T0 (s2l "MIT AND (LicenseRef-)") = Err (EExpectedId 20).
+Proof. vm_compute. repeat split; reflexivity. Qed.
+
 (* the hypotheses are met: FOO in "MIT AND (FOO OR ISC)" *)
 Example C15_unknown_word_nonvacuous :
   unknown_word T0 (s2l "FOO") (s2l " OR ISC)") /\ ref_tokens T0 (s2l "MIT AND ") = Ok [TLic (s2l "MIT"); TOp OAnd]
@@ -102,5 +124,5 @@ Proof.
 Qed.
 
 (* axioms the property theorems of this file depend on (one traversal for all of them) *)
-Definition C15_theorems := (@C15_parse, @C15_extract, @C15_satisfies_expression, @C15_satisfies_allowed, @C15_unknown_word_first, @C15_unknown_word_after_space, @C15_unknown_word_after_paren).
+Definition C15_theorems := (@C15_parse, @C15_extract, @C15_satisfies_expression, @C15_satisfies_allowed, @C15_unknown_word_first, @C15_unknown_word_after_space, @C15_unknown_word_after_paren, @C15_missing_id_first, @C15_missing_id_after).
 Redirect "assumptions/C15" Print Assumptions C15_theorems.
